@@ -62,6 +62,17 @@ func c08ClientLoop(args []string) {
 			_, _, err := client.MeasureClockOffsetIP(ctx, log, c, &net.UDPAddr{IP: la.AsSlice()}, &net.UDPAddr{IP: sa.Addr().AsSlice(), Port: 1})
 			return err
 		}
+	case "scionnts":
+		c := &client.SCIONClient{Log: log}
+		c.Auth.NTSEnabled = true
+		c.Auth.NTSKEFetcher = *c20NewFetcher(netip.MustParseAddrPort(*ke))
+		pth := handPath(rand.New(rand.NewPCG(1, 2)), c05LIA, c05RIA, sa, 0)
+		call = func(ctx context.Context) error {
+			l := udp.UDPAddr{IA: c05LIA, Host: &net.UDPAddr{IP: la.AsSlice()}}
+			r := udp.UDPAddr{IA: c05RIA, Host: &net.UDPAddr{IP: sa.Addr().AsSlice(), Port: 10123}}
+			_, _, err := client.MeasureClockOffsetSCION(ctx, log, []*client.SCIONClient{c}, l, r, []snet.Path{pth})
+			return err
+		}
 	case "scion", "scionauth":
 		c := &client.SCIONClient{Log: log, InterleavedMode: true}
 		if *kind == "scionauth" {
@@ -84,7 +95,13 @@ func c08ClientLoop(args []string) {
 	}
 	fmt.Println("READY")
 	for i := 0; ; i++ {
-		ctx, cancel := context.WithTimeout(context.Background(), 30*time.Millisecond)
+		d := 30 * time.Millisecond
+		if strings.HasSuffix(*kind, "nts") {
+			// a key exchange may take longer; a measurement goroutine must not outlive its round and
+			// overlap with the next one on the same client (see DESIGN.md, observation O2)
+			d = 150 * time.Millisecond
+		}
+		ctx, cancel := context.WithTimeout(context.Background(), d)
 		err := call(ctx)
 		cancel()
 		if err != nil {
@@ -365,6 +382,15 @@ func c08Clients(r *ev.Run, e *c08Env) {
 				}, c08SCIONResponses(r, rng, srvIP, cliIP, kind == "scionauth"))
 		}()
 	}
+	// ---- NTS clients (IP and SCION) against a hostile key-exchange server: cookie sizes, server records
+	for _, kind := range []string{"ipnts", "scionnts"} {
+		kind := kind
+		wg.Add(1)
+		go func() {
+			defer wg.Done()
+			c08DriveNTSClient(r, kind, srvIP, cliIP)
+		}()
+	}
 	// ---- CSPTP client
 	{
 		ev319, err1 := peer.NewNTPServer(netip.AddrPortFrom(srvIP, 319), nil)
@@ -577,6 +603,21 @@ func c08CSPTPResponses(r *ev.Run, rng *rand.Rand) []c08Resp {
 			return [][]byte{randBytes(rng, l), randBytes(rng, l)}
 		})
 	}
+	for l := 4; l < 44; l++ { // shorter than a header, but consistent with its own length field
+		l := l
+		add("csptp-response-shorter-than-header", func(req []byte, rng *rand.Rand) [][]byte {
+			mk := func(typ byte) []byte {
+				b := randBytes(rng, l)
+				b[0], b[1] = typ, csptp.PTPVersion
+				binary.BigEndian.PutUint16(b[2:], uint16(l))
+				if l >= 32 && len(req) >= 32 {
+					copy(b[30:32], req[30:32]) // sequence id
+				}
+				return b
+			}
+			return [][]byte{mk(0), mk(8)}
+		})
+	}
 	for _, ml := range []int{0, 1, 43, 44, 45, 80, 97, 98, 99, 0xffff} {
 		for _, l := range []int{44, 80, 98} {
 			ml, l := ml, l
@@ -609,4 +650,141 @@ func c08CSPTPResponses(r *ev.Run, rng *rand.Rand) []c08Resp {
 		})
 	}
 	return out
+}
+
+// c08DriveNTSClient: the real NTS-enabled client against a scripted key-exchange server that hands out
+// cookies of hostile sizes and names NTP servers that are not IP literals.
+func c08DriveNTSClient(r *ev.Run, kind string, srvIP, cliIP netip.Addr) {
+	name := "nts-client(" + kind + ")"
+	// the NTP side answers at once with a reply the NTS client rejects, so that calls end quickly and spend cookies
+	ntp, err := peer.NewNTPServer(netip.AddrPortFrom(srvIP, 0), func(s *peer.NTPServer, dg []byte, from netip.AddrPort, rx time.Time) {
+		p := dg
+		if kind == "scionnts" {
+			return // (SCION framing would be needed; the call then ends at its deadline)
+		}
+		if f, ok := peer.ParseNTP(p); ok {
+			now := peer.ToNTP64(time.Now())
+			s.Send(from, peer.NTPFields{LVM: 0x24, Stratum: 1, Origin: f.Transmit, Receive: now, Transmit: now}.Bytes())
+			s.Send(from, peer.NTPFields{LVM: 0x24, Stratum: 1, Origin: f.Transmit, Receive: now, Transmit: now}.Bytes())
+		}
+	})
+	if err != nil {
+		r.Inconclusive(err.Error())
+		return
+	}
+	defer ntp.Close()
+	type variant struct {
+		class   string
+		cookies []int
+		server  string
+		port    uint16
+		stall   int // >0: send only that many bytes of the message and then stall with the connection open
+	}
+	var vs []variant
+	for _, n := range []int{0, 1, 3, 16, 100, 124, 125, 137, 138, 160, 200, 300, 500, 1100, 1300, 4000, 60000} {
+		vs = append(vs, variant{"ntske-cookie-size", []int{n, n, n}, srvIP.String(), ntp.Addr.Port(), 0})
+		vs = append(vs, variant{"ntske-cookie-size(one cookie)", []int{n}, srvIP.String(), ntp.Addr.Port(), 0})
+	}
+	vs = append(vs, variant{"ntske-cookie-sizes-mixed", []int{124, 300, 16, 124, 0, 900, 124, 124}, srvIP.String(), ntp.Addr.Port(), 0})
+	for _, sv := range []string{"not-an-ip", "", "999.1.1.1", "example.org", "::ffff:1.2.3.4", "fe80::1%lo", strings.Repeat("a", 300), "127.0.0.1:99"} {
+		vs = append(vs, variant{"ntske-server-record-not-an-ip-literal", []int{124, 124}, sv, ntp.Addr.Port(), 0})
+	}
+	for _, p := range []uint16{0, 1, 65535} {
+		vs = append(vs, variant{"ntske-port-record", []int{124, 124}, srvIP.String(), p, 0})
+	}
+	for _, n := range []int{1, 3, 4, 10, 60} { // a server that stops talking in the middle of its message
+		vs = append(vs, variant{"ntske-server-stalls-mid-message", []int{124, 124}, srvIP.String(), ntp.Addr.Port(), n})
+	}
+	var mu sync.Mutex
+	cur := vs[0]
+	ke, err := peer.NewNTSKEServer(netip.AddrPortFrom(srvIP, 0), nil, func(c *peer.NTSKEConn) ([]byte, []int, int) {
+		mu.Lock()
+		v := cur
+		mu.Unlock()
+		var cs [][]byte
+		for i, n := range v.cookies {
+			b := make([]byte, n)
+			for j := range b {
+				b[j] = byte(i + j)
+			}
+			cs = append(cs, b)
+		}
+		var msg []byte
+		msg = append(msg, peer.KERecord(1, true, []byte{0, 0})...)
+		msg = append(msg, peer.KERecord(4, true, []byte{0, 15})...)
+		msg = append(msg, peer.KERecord(6, false, []byte(v.server))...)
+		if v.port != 0 {
+			msg = append(msg, peer.KERecord(7, false, []byte{byte(v.port >> 8), byte(v.port)})...)
+		}
+		for _, c := range cs {
+			msg = append(msg, peer.KERecord(5, false, c)...)
+		}
+		msg = append(msg, peer.KERecord(0, true, nil)...)
+		if v.stall > 0 {
+			return msg[:min(v.stall, len(msg))], nil, -2
+		}
+		return msg, nil, -1
+	})
+	if err != nil {
+		r.Inconclusive(err.Error())
+		return
+	}
+	defer ke.Close()
+	keAddr := netip.AddrPortFrom(srvIP, uint16(ke.L.Addr().(*net.TCPAddr).Port))
+	args := []string{"-kind", kind, "-server", ntp.Addr.String(), "-ke", keAddr.String(), "-local", cliIP.String()}
+	child, err := startChildLeg("race", "c08client", args...)
+	if err != nil {
+		r.Inconclusive(name + ": " + err.Error())
+		return
+	}
+	defer func() { child.Kill() }()
+	skip := map[string]bool{}
+	for _, v := range vs {
+		if skip[v.class] || (r.Only() != "" && r.Only() != v.class) {
+			continue
+		}
+		mu.Lock()
+		cur = v
+		mu.Unlock()
+		before := ke.NumConns()
+		child.DrainLogs()
+		ok := false
+		deadline := time.Now().Add(15 * time.Second)
+		iters := 0
+		for time.Now().Before(deadline) && child.Alive() {
+			if child.WaitLog("ITER", time.Until(deadline)) {
+				iters++
+			}
+			// the variant counts once a key exchange happened under it and calls kept completing afterwards;
+			// the cookies of earlier exchanges are used up first (each failed call spends one)
+			if ke.NumConns() > before && iters >= 10 {
+				ok = true
+				break
+			}
+		}
+		r.Eval(1)
+		if ok {
+			r.Class(name + ":survived:" + v.class)
+			r.Distinct(name + v.class + fmt.Sprint(v.cookies, v.server, v.port))
+			continue
+		}
+		w := map[string]any{"client": name, "class": v.class, "cookie_sizes": v.cookies, "server_record": v.server, "port_record": v.port}
+		if !child.Alive() {
+			first, frame := child.ExitInfo()
+			w["panic"], w["frame"], w["stderr"] = first, frame, child.Stderr()
+			r.Violation(name+"|panic:"+c08Sig(frame)+"|"+v.class, v.class, w)
+		} else if ke.NumConns() == before {
+			r.Inconclusive(name + ": no key exchange reached the scripted server for " + v.class)
+			continue
+		} else {
+			w["goroutines"] = child.Dump()
+			r.Violation(name+"|hang|"+v.class, v.class, w)
+		}
+		skip[v.class] = true
+		child.Kill()
+		if child, err = startChildLeg("race", "c08client", args...); err != nil {
+			return
+		}
+	}
+	r.Class("endpoint:" + name)
 }
